@@ -23,6 +23,8 @@ func init() {
 }
 
 func runC11(c *Ctx) {
+	c.R.Rule("RS-no-request-time-state", "request handling writes no state that outlives the request (package-level variables, objects built at start-up, constructor variables captured by handlers) declared in the packages implementing this property", 1)
+	runStateless(c, "RS-no-request-time-state", "main.OAuthProxy", "pkg/sessions")
 	r := c.R
 	r.Rule("R1-redirect-after-clear", "SignOut: success redirect only after ClearSessionCookie()==nil", 2)
 	r.Rule("R2-clear-propagates", "Manager.Clear always clears the cookie and returns the store-delete error unchanged up the chain", 9)
